@@ -476,7 +476,8 @@ macro_rules! with_trigger
             KeyR::EntityRemoval(e, 0) => { let $t = entity_removal::<CA>(e); $body }
             KeyR::EntityRemoval(e, _) => { let $t = entity_removal::<CB>(e); $body }
             KeyR::ResourceMutation(0) => { let $t = resource_mutation::<RA>(); $body }
-            KeyR::ResourceMutation(_) => { let $t = resource_mutation::<RB>(); $body }
+            KeyR::ResourceMutation(1) => { let $t = resource_mutation::<RB>(); $body }
+            KeyR::ResourceMutation(_) => { let $t = resource_mutation::<RC>(); $body }
             KeyR::Despawn(e) => { let $t = despawn(e); $body }
         }
     };
@@ -926,7 +927,8 @@ fn perform(c: &mut Commands, action: Action, resolved: &Resolved)
         Action::ResMutate(0) => c.syscall((), res_mutate_sys::<RA>),
         Action::ResMutate(_) => c.syscall((), res_mutate_sys::<RB>),
         Action::ResTrigger(0) => c.react().trigger_resource_mutation::<RA>(),
-        Action::ResTrigger(_) => c.react().trigger_resource_mutation::<RB>(),
+        Action::ResTrigger(1) => c.react().trigger_resource_mutation::<RB>(),
+        Action::ResTrigger(_) => c.react().trigger_resource_mutation::<RC>(),
         Action::Despawn(e, rec) => c.queue(move |w: &mut World| {
             if let Ok(em) = w.get_entity_mut(e) { if rec { em.despawn_recursive(); } else { em.despawn(); } }
         }),
@@ -1048,7 +1050,8 @@ fn direct_op(world: &mut World, sender: Sender, op: &Op)
         Action::TriggerMutation(e, 0) => React::<CA>::trigger_mutation(e, world),
         Action::TriggerMutation(e, _) => React::<CB>::trigger_mutation(e, world),
         Action::ResTrigger(0) => world.trigger_resource_mutation::<RA>(),
-        Action::ResTrigger(_) => world.trigger_resource_mutation::<RB>(),
+        Action::ResTrigger(1) => world.trigger_resource_mutation::<RB>(),
+        Action::ResTrigger(_) => world.trigger_resource_mutation::<RC>(),
         Action::Gc => garbage_collect_entities(world),
         Action::Poll => schedule_removal_and_despawn_reactors(world),
         Action::AutoDespawn(e) => { let sig = world.resource::<AutoDespawner>().prepare(e); drop(sig); }
